@@ -29,12 +29,21 @@ def build(rnd_seed, cfg):
     return s, dist, q0, kw
 
 
+PRINT_ERRORS = []
+
+
 def read_all(fn):
     from hmclab.Samples import Samples
 
     with quiet():
         s = Samples(fn)
         arr = np.array(s.numpy, dtype=float)
+        # looking at the file must not change what it says: print_details() (twice) before the attributes are read
+        try:
+            s.print_details()
+            s.print_details()
+        except Exception as e:
+            PRINT_ERRORS.append(f"print_details() raised {e!r} on {os.path.basename(fn).split('.')[-1]}")
         keys = ["proposals", "online_thinning", "sampler", "write_index", "last_written_sample", "acceptance_rate", "stepsize"]
         attrs = {}
         for k in keys:
@@ -73,15 +82,15 @@ def _stop_class():
     from hmclab.Distributions import _AbstractDistribution
 
     class Stop(_AbstractDistribution):
-        def __init__(self, inner, k):
-            self.inner, self.k, self.calls = inner, k, 0
+        def __init__(self, inner, k, exc=KeyboardInterrupt):
+            self.inner, self.k, self.calls, self.exc = inner, k, 0, exc
             self.dimensions = inner.dimensions
             self.lower_bounds, self.upper_bounds = inner.lower_bounds, inner.upper_bounds
 
         def misfit(self, m):
             self.calls += 1
             if self.calls == self.k:
-                raise KeyboardInterrupt
+                raise self.exc
             return self.inner.misfit(m)
 
         def gradient(self, m):
@@ -180,7 +189,7 @@ def interrupted_suite(rnd, N, findings):
     """runs stopped by Ctrl-C inside a proposal: the stored attributes still describe what was completed"""
     _, S, MM, D = _hm()
     _Stop = _stop_class()
-    si = Suite("C07.interrupted", "RWMH/HMC runs in which the target raises KeyboardInterrupt at its k-th misfit call (inside a later proposal), HDF5 and NPY, "
+    si = Suite("C07.interrupted", "RWMH/HMC runs in which the target raises KeyboardInterrupt or an exception of its own (re-raised by sample()) at its k-th misfit call (inside a later proposal), HDF5 and NPY, "
                "thinning 1-3: acceptance_rate = accepted / completed proposals (counted from the instrumented sampler's completed transitions), write_index = "
                "number of stored columns = ceil(completed / t), columns = the completed chain states; non-trivial = >= 2 completed proposals")
     with scratch() as tmp:
@@ -195,9 +204,16 @@ def interrupted_suite(rnd, N, findings):
             s, dist, q0, kw = build(rnd.randrange(1 << 30), cfg)
             fn = os.path.join(tmp, f"i{ci}.{ext}")
             stim = {"config": cfg, "proposals": P, "thinning": t, "interrupt_at_misfit_call": k, "backend": ext}
+            stopped_by = rnd.choice(["KeyboardInterrupt", "KeyboardInterrupt", "RuntimeError", "TimeoutError"])
+            stim["stopped_by"] = stopped_by
+            exc = {"KeyboardInterrupt": KeyboardInterrupt, "RuntimeError": RuntimeError("raised by the target"), "TimeoutError": TimeoutError("raised by the target")}[stopped_by]
             try:
                 with quiet(), np.errstate(all="ignore"):
-                    s.sample(fn, _Stop(dist, k), initial_model=q0.copy(), proposals=P, online_thinning=t, overwrite_existing_file=True, disable_progressbar=True, **kw)
+                    try:
+                        s.sample(fn, _Stop(dist, k, exc), initial_model=q0.copy(), proposals=P, online_thinning=t, overwrite_existing_file=True, disable_progressbar=True, **kw)
+                    except (RuntimeError, TimeoutError) as e:
+                        if e is not exc:
+                            raise
                 arr, attrs = read_all(fn)
             except Exception as e:
                 si.case(stim, nontrivial=False)
@@ -214,6 +230,7 @@ def interrupted_suite(rnd, N, findings):
             n_acc = sum(1 for tr in trans if tr["post"]["accepted"] == tr["pre"]["accepted"] + 1)
             si.case(stim, nontrivial=completed >= 2, sample={"completed": completed, "accepted": n_acc, "columns": int(arr.shape[1])} if len(si.samples) < 3 else None)
             si.count(f"sampler={cfg['sampler']}")
+            si.count(f"stopped by {stopped_by}")
             si.count("interrupted before the end" if completed < P else "ran to the end")
             problems = []
             want_cols = (completed + t - 1) // t
@@ -229,7 +246,7 @@ def interrupted_suite(rnd, N, findings):
             want_rate = (n_acc / completed) if completed else 0.0
             if not common.close(rate, want_rate, 1e-15, 0):
                 problems.append(f"attribute acceptance_rate = {attrs.get('acceptance_rate')!r}, accepted/completed = {n_acc}/{completed}")
-            if int(attrs.get("write_index", -1)) != arr.shape[1]:
+            if isinstance(attrs.get("write_index"), str) or int(attrs.get("write_index", -1)) != arr.shape[1]:
                 problems.append(f"attribute write_index = {attrs.get('write_index')!r} for {arr.shape[1]} stored columns")
             if problems:
                 si.disagree(stim, "attributes describe the completed part of the run", problems, problems[0])
@@ -320,6 +337,9 @@ def run(tier, seed):
                             break
                     if unthinned is not None and not np.array_equal(arr, unthinned[:, ::t][:, : P // t], equal_nan=True):
                         problems.append("thinned run is not every t-th column of the unthinned run")
+                if PRINT_ERRORS:
+                    problems.append(PRINT_ERRORS[0])
+                    PRINT_ERRORS.clear()
                 a2, attrs2, _, _ = per_backend["npy"]
                 if a2.shape != arr.shape or not np.array_equal(a2, arr, equal_nan=True):
                     problems.append("HDF5 and NPY files differ")
@@ -331,7 +351,8 @@ def run(tier, seed):
                             got = got.decode()
                         if not (got == v):
                             problems.append(f"{name} attribute {k} = {got!r}, expected {v!r}")
-                    if not common.close(float(at.get("acceptance_rate", float("nan"))), n_acc / P, 1e-15, 0):
+                    rate_attr = at.get("acceptance_rate", float("nan"))
+                    if isinstance(rate_attr, str) or not common.close(float(rate_attr), n_acc / P, 1e-15, 0):
                         problems.append(f"{name} attribute acceptance_rate = {at.get('acceptance_rate')!r}, expected accepted/completed = {n_acc}/{P}")
                     if cfg["sampler"] == "HMC":
                         if int(at.get("amount_of_steps", -1)) != cfg["n"]:
